@@ -434,11 +434,12 @@ def _case_tearDown(self):
 
 def _case_run(self, result=None):
     # delimits everything the runner does around one test (incl. tests that never start)
-    emit('T', ph='run', id=self.id())
+    tid = self.id()     # (the runner may clear the instance dict while the test is being stopped)
+    emit('T', ph='run', id=tid)
     try:
         return unittest.TestCase.run(self, result)
     finally:
-        emit('T', ph='ran', id=self.id())
+        emit('T', ph='ran', id=tid)
 
 
 def _safe_str(obj):
